@@ -47,6 +47,30 @@ import from Foo, SingleInteger;
 print << bar 7 << " " << baz() << newline;
 '''
 
+# A library whose second member EXTENDS a domain of the first: a client that never names the
+# second member still depends on it (losing the member silently changes what `has` answers).
+SHAPES_SRC = b'''#include "axllib"
+define Labelled: Category == with { label: () -> String };
+Shape: with { area: (SingleInteger, SingleInteger) -> SingleInteger } == add {
+	area(w: SingleInteger, h: SingleInteger): SingleInteger == w * h;
+}
+'''
+SHAPELABEL_SRC = b'''#include "axllib"
+#library ShapesLib "shapes.ao"
+import from ShapesLib;
+extend Shape: Labelled == add {
+	label(): String == "a labelled shape";
+}
+'''
+CLIENT5 = b'''#include "axllib"
+#library MineLib "libshape.al"
+import from MineLib;
+import from Shape, SingleInteger;
+describe(T: Type): String == {
+	if T has Labelled then label()$T else "unlabelled";
+}
+print << area(3, 4) << " " << describe Shape << newline;
+'''
 # route name -> (options, source argument or None for "the subject file itself")
 ROUTES = {
     "R1": (["-Fc", "-Ffm", "-Flsp"], None),		# compile a saved .ao
@@ -59,6 +83,9 @@ ROUTES = {
     "R6": (["-Ginterp"], "cl3.as"),			# client importing from two members of one archive
     "R6q": (["-Q3", "-Fc"], "cl3.as"),
     "R7": (["-Ginterp"], "cl4.as"),			# archive with a long member name (ar name table)
+    "R9": (["-Ginterp"], "cl5.as"),			# archive whose second member extends a domain of the first
+    "R9c": (["-Fc", "-Flsp"], "cl5.as"),
+    "R9l": (["-lMineLib=shape", "-Ginterp"], "cl6.as"),	# the same archive named on the command line (-l), opened while options are processed
     "R8": (["-Gloop"], "LOOP"),				# the interactive loop reading the file through #library
 }
 LOOP_SCRIPT = '''#int verbose off
@@ -109,6 +136,15 @@ def ao_regions(data):
     except struct.error:
         pass
     return regs
+
+
+def arhdr_regions(base, tag):
+    """the fields of a 60-byte ar member header"""
+    out, o = [], base
+    for nm, ln in (("name", 16), ("date", 12), ("uid", 6), ("gid", 6), ("mode", 8), ("size", 10), ("fmag", 2)):
+        out.append((o, o + ln, "%s.%s" % (tag, nm)))
+        o += ln
+    return out
 
 
 def region_of(regs, off, default="payload"):
@@ -166,7 +202,7 @@ def make_subjects(binfo, scratch, seed, tier):
         vsim.cleanup_world(d)
         m = all_.find(b"/0 ")		# member header that refers to the name table
         if m > 0:
-            regs = [(0, 8, "armagic"), (8, 68, "arnamehdr"), (68, m, "arnametable"), (m, m + 60, "arhdr")] + \
+            regs = [(0, 8, "armagic"), (8, 68, "arnamehdr"), (68, m, "arnametable"), ] + arhdr_regions(m, "arhdr") + \
                    [(lo + m + 60, hi + m + 60, "member." + nm) for lo, hi, nm in ao_regions(aol)]
             subjects.append({"kind": "al", "file": "liblong.al", "data": all_, "aux": {"cl4.as": CLIENT % b"liblong.al"},
                              "routes": ["R7"], "regions": regs, "trace": [], "prog": "averyveryverylongname.as", "source": LIB_SRC,
@@ -184,7 +220,7 @@ def make_subjects(binfo, scratch, seed, tier):
         subprocess.run(["ar", "crD", "liblx.al", "lx.ao"], cwd=d, check=True)
         al = open(os.path.join(d, "liblx.al"), "rb").read()
         vsim.cleanup_world(d)
-        regs = [(0, 8, "armagic"), (8, 68, "arhdr")] + [(lo + 68, hi + 68, "member." + nm) for lo, hi, nm in ao_regions(ao)]
+        regs = [(0, 8, "armagic")] + arhdr_regions(8, "arhdr") + [(lo + 68, hi + 68, "member." + nm) for lo, hi, nm in ao_regions(ao)]
         subjects.append({"kind": "al", "file": "liblx.al", "data": al, "aux": {"cl2.as": CLIENT % b"liblx.al"},
                          "routes": ["R4", "R8"], "regions": regs, "trace": [], "prog": "lx.as", "source": LIB_SRC})
         # an archive with two members
@@ -199,13 +235,40 @@ def make_subjects(binfo, scratch, seed, tier):
             al2 = open(os.path.join(d, "liblxy.al"), "rb").read()
             vsim.cleanup_world(d)
             m2 = 68 + len(ao) + (len(ao) & 1)		# second member header (ar pads members to even length)
-            regs2 = [(0, 8, "armagic"), (8, 68, "arhdr")] + \
+            regs2 = [(0, 8, "armagic")] + arhdr_regions(8, "arhdr") + \
                     [(lo + 68, hi + 68, "member." + nm) for lo, hi, nm in ao_regions(ao)] + \
-                    [(m2, m2 + 60, "arhdr2")] + \
+                    arhdr_regions(m2, "arhdr2") + \
                     [(lo + m2 + 60, hi + m2 + 60, "member." + nm) for lo, hi, nm in ao_regions(ao2)]
             subjects.append({"kind": "al", "file": "liblxy.al", "data": al2, "aux": {"cl3.as": CLIENT2},
                              "routes": ["R6", "R6q"], "regions": regs2, "trace": [], "prog": "lx.as+ly.as", "source": LIB_SRC,
                              "hdr_ranges": [(0, 68 + 165), (m2, m2 + 60 + 165)]})
+    # an archive whose second member extends a domain of the first member
+    rs = write_world(binfo, scratch, "shapes.as", SHAPES_SRC)
+    if rs.rc == 0 and "shapes.ao" in rs.files:
+        ao1 = rs.files["shapes.ao"]
+        w = scratch.new()
+        rs2 = worlds.compile_world(binfo, w, {"shapelabel.as": SHAPELABEL_SRC, "shapes.ao": ao1}, ["-Fao"], ["shapelabel.as"], cpu=60)
+        vsim.cleanup_world(w)
+        if rs2.rc == 0 and "shapelabel.ao" in rs2.files:
+            ao2 = rs2.files["shapelabel.ao"]
+            d = scratch.new()
+            os.makedirs(d)
+            open(os.path.join(d, "shapes.ao"), "wb").write(ao1)
+            open(os.path.join(d, "shapelabel.ao"), "wb").write(ao2)
+            subprocess.run(["ar", "crD", "libshape.al", "shapes.ao", "shapelabel.ao"], cwd=d, check=True)
+            al3 = open(os.path.join(d, "libshape.al"), "rb").read()
+            vsim.cleanup_world(d)
+            m1 = 8
+            m2 = 68 + len(ao1) + (len(ao1) & 1)
+            if al3[m2:m2 + 14] == b"shapelabel.ao/":
+                regs3 = [(0, 8, "armagic")] + arhdr_regions(m1, "arhdr") + \
+                        [(lo + m1 + 60, hi + m1 + 60, "member." + nm) for lo, hi, nm in ao_regions(ao1)] + \
+                        arhdr_regions(m2, "arhdr2") + \
+                        [(lo + m2 + 60, hi + m2 + 60, "member." + nm) for lo, hi, nm in ao_regions(ao2)]
+                subjects.append({"kind": "al", "file": "libshape.al", "data": al3, "aux": {"cl5.as": CLIENT5, "cl6.as": CLIENT5.replace(b'#library MineLib "libshape.al"\n', b"")},
+                                 "routes": ["R9", "R9c", "R9l"], "regions": regs3, "trace": [], "prog": "shapes.as+shapelabel.as", "source": SHAPES_SRC,
+                                 "hdr_ranges": [(0, m1 + 60 + 165), (m2 - 2, m2 + 60 + 165)],
+                                 "dense": [(m2 + 60, len(al3))], "boundaries": [m2]})
     return subjects, skipped
 
 
@@ -242,6 +305,10 @@ def gen_damages(rng, subj, tier):
             lens.add(min(n - 1, lo + 1))
         for _ in range(40):
             lens.add(rng.below(n))
+        for lo, hi in subj.get("dense", []):	# a seeded sample of cuts inside a region of interest
+            for _ in range(60):
+                lens.add(rng.range(lo, max(lo, min(hi, n) - 1)))
+            lens.add(min(hi, n) - 1)
         if subj["kind"] == "fm":
             # text: cut inside and right after the tokens a reader has to finish - string
             # literals, comments, numbers, opening parentheses (a capped, seeded sample of each)
@@ -343,6 +410,8 @@ def judge(r, ref, route=None):
 
 def vkey(subj, dmg, cls):
     reg = "eof" if dmg[0] == "trunc" and dmg[1] >= len(subj["data"]) else region_of(subj["regions"], min(dmg[1], len(subj["data"]) - 1))
+    if dmg[0] == "trunc" and dmg[1] in subj.get("boundaries", ()):
+        reg = "member-boundary"	# what is left is a well-formed archive with fewer members
     return "%s:%s:%s:%s" % (subj["kind"], dmg[0], reg, cls)
 
 
